@@ -102,7 +102,7 @@ func (a *Arith) I() *Sort {
 }
 
 func (a *Arith) Sort(n NumT) *Sort {
-	if a.Mode == ModeBV || n.Float {
+	if a.Mode == ModeBV {
 		return BV(n.Bits)
 	}
 	return IntSort
@@ -111,7 +111,7 @@ func (a *Arith) Sort(n NumT) *Sort {
 func (a *Arith) ByteSort() *Sort { return a.Sort(tByte) }
 
 func (a *Arith) Const(n NumT, v *big.Int) *Term {
-	if a.Mode == ModeBV || n.Float {
+	if a.Mode == ModeBV {
 		return Const(BV(n.Bits), v)
 	}
 	// normalise into range (constants in Go are always in range when typed)
@@ -122,8 +122,12 @@ func (a *Arith) IConst(v int64) *Term         { return a.ConstI(tInt, v) }
 
 // InRange is the typing fact of a value of type n (trivial in bv mode)
 func (a *Arith) InRange(n NumT, x *Term) *Term {
-	if a.Mode == ModeBV || n.Float {
+	if a.Mode == ModeBV {
 		return True
+	}
+	if n.Float {
+		// a float is its bit pattern
+		return And(IntCmp("<=", ConstI(IntSort, 0), x), IntCmp("<", x, Const(IntSort, bigPow2(uint(n.Bits)))))
 	}
 	return And(IntCmp("<=", Const(IntSort, n.Min()), x), IntCmp("<=", x, Const(IntSort, n.Max())))
 }
@@ -177,6 +181,7 @@ func (a *Arith) Bin(op token.Token, n NumT, x, y *Term) *Term {
 	}
 	// int mode
 	var r *Term
+	zero := ConstI(IntSort, 0)
 	switch op {
 	case token.ADD:
 		r = IntOp("+", x, y)
@@ -186,40 +191,82 @@ func (a *Arith) Bin(op token.Token, n NumT, x, y *Term) *Term {
 		r = IntOp("*", x, y)
 	case token.QUO:
 		// Go truncates toward zero; SMT div is euclidean. Exact for x >= 0, y > 0.
-		a.side(And(IntCmp(">=", x, ConstI(IntSort, 0)), IntCmp(">", y, ConstI(IntSort, 0))), "division operands non-negative (int mode)")
+		a.side(And(IntCmp(">=", x, zero), IntCmp(">", y, zero)), "division operands non-negative (int mode)")
 		if y.IsConst() {
 			return IntOp("div", x, y)
 		}
 		return App("udiv", IntSort, x, y)
 	case token.REM:
-		a.side(And(IntCmp(">=", x, ConstI(IntSort, 0)), IntCmp(">", y, ConstI(IntSort, 0))), "remainder operands non-negative (int mode)")
+		a.side(And(IntCmp(">=", x, zero), IntCmp(">", y, zero)), "remainder operands non-negative (int mode)")
 		if y.IsConst() {
-			return IntOp("mod", x, y)
+			return tagBits(IntOp("mod", x, y), y.Val.BitLen())
 		}
 		return App("urem", IntSort, x, y)
 	case token.SHL:
-		if y.IsConst() && y.Val.IsInt64() && y.Val.Int64() < 63 {
-			r = IntOp("*", x, Const(IntSort, new(big.Int).Lsh(big.NewInt(1), uint(y.Val.Int64()))))
+		if y.IsConst() && y.Val.IsInt64() && y.Val.Int64() < int64(n.Bits) {
+			c := uint(y.Val.Int64())
+			r = IntOp("*", x, Const(IntSort, bigPow2(c)))
+			if ub, ok := ubOf(x); ok && !n.Signed {
+				if ub+int(c) <= n.Bits {
+					return tagBits(r, ub+int(c))
+				}
+				return tagBits(IntOp("mod", r, Const(IntSort, bigPow2(uint(n.Bits)))), n.Bits)
+			}
+			if !n.Signed {
+				return tagBits(IntOp("mod", r, Const(IntSort, bigPow2(uint(n.Bits)))), n.Bits)
+			}
 		} else {
 			return App("ushl", IntSort, x, y)
 		}
 	case token.SHR:
-		if y.IsConst() && y.Val.IsInt64() && y.Val.Int64() < 63 {
-			a.side(IntCmp(">=", x, ConstI(IntSort, 0)), "shift operand non-negative (int mode)")
-			return IntOp("div", x, Const(IntSort, new(big.Int).Lsh(big.NewInt(1), uint(y.Val.Int64()))))
+		// floor division is exact for logical shifts of unsigned and arithmetic shifts of signed values
+		if y.IsConst() && y.Val.IsInt64() && y.Val.Int64() < int64(n.Bits) {
+			c := uint(y.Val.Int64())
+			res := IntOp("div", x, Const(IntSort, bigPow2(c)))
+			if ub, ok := ubOf(x); ok {
+				nb := ub - int(c)
+				if nb < 0 {
+					nb = 0
+				}
+				tagBits(res, nb)
+			}
+			return res
 		}
 		return App("ushr", IntSort, x, y)
 	case token.AND:
-		// x & (2^k-1) == x mod 2^k for x >= 0
-		if y.IsConst() {
-			m := new(big.Int).Add(y.Val, big.NewInt(1))
-			if m.Sign() > 0 && new(big.Int).And(m, y.Val).Sign() == 0 {
-				a.side(IntCmp(">=", x, ConstI(IntSort, 0)), "mask operand non-negative (int mode)")
-				return IntOp("mod", x, Const(IntSort, m))
+		for _, p := range [][2]*Term{{x, y}, {y, x}} {
+			v, m := p[0], p[1]
+			if !m.IsConst() || m.Val.Sign() < 0 {
+				continue
+			}
+			// low mask 2^k-1
+			m1 := new(big.Int).Add(m.Val, big.NewInt(1))
+			if new(big.Int).And(m1, m.Val).Sign() == 0 {
+				return tagBits(IntOp("mod", v, Const(IntSort, m1)), m1.BitLen()-1)
+			}
+			// high mask 2^bits - 2^k on an unsigned operand
+			if !n.Signed {
+				inv := new(big.Int).Sub(bigPow2(uint(n.Bits)), m.Val)
+				if inv.Sign() > 0 && new(big.Int).And(inv, new(big.Int).Sub(inv, big.NewInt(1))).Sign() == 0 {
+					return tagBits(IntOp("-", v, IntOp("mod", v, Const(IntSort, inv))), n.Bits)
+				}
 			}
 		}
 		return App("uand", IntSort, x, y)
 	case token.OR:
+		for _, p := range [][2]*Term{{x, y}, {y, x}} {
+			hi, lo := p[0], p[1]
+			if ub, ok := ubOf(lo); ok && tzOf(hi) >= ub {
+				res := IntOp("+", hi, lo)
+				if uh, ok2 := ubOf(hi); ok2 {
+					if uh < ub {
+						uh = ub
+					}
+					tagBits(res, uh)
+				}
+				return res
+			}
+		}
 		return App("uor", IntSort, x, y)
 	case token.XOR:
 		return App("uxor", IntSort, x, y)
@@ -230,6 +277,98 @@ func (a *Arith) Bin(op token.Token, n NumT, x, y *Term) *Term {
 	}
 	a.side(a.InRange(n, r), fmt.Sprintf("no overflow in %s on %d-bit %s", op, n.Bits, sgn(n)))
 	return r
+}
+
+// ---- int mode: syntactic knowledge about bit patterns of Int terms ----
+
+var ubits = map[*Term]int{}
+
+// tagBits records 0 <= t < 2^bits
+func tagBits(t *Term, bits int) *Term {
+	if !t.IsConst() {
+		if old, ok := ubits[t]; !ok || bits < old {
+			ubits[t] = bits
+		}
+	}
+	return t
+}
+
+// ubOf: w such that 0 <= t < 2^w is known
+func ubOf(t *Term) (int, bool) {
+	if t.IsConst() {
+		if t.Val.Sign() < 0 {
+			return 0, false
+		}
+		return t.Val.BitLen(), true
+	}
+	if w, ok := ubits[t]; ok {
+		return w, true
+	}
+	switch t.Op {
+	case "mod":
+		if t.Args[1].IsConst() && t.Args[1].Val.Sign() > 0 {
+			return new(big.Int).Sub(t.Args[1].Val, big.NewInt(1)).BitLen(), true
+		}
+	case "*":
+		if len(t.Args) == 2 && t.Args[1].IsConst() && t.Args[1].Val.Sign() > 0 {
+			if w, ok := ubOf(t.Args[0]); ok {
+				return w + t.Args[1].Val.BitLen(), true
+			}
+		}
+	case "div":
+		if t.Args[1].IsConst() && t.Args[1].Val.Sign() > 0 {
+			if w, ok := ubOf(t.Args[0]); ok {
+				nb := w - (t.Args[1].Val.BitLen() - 1)
+				if nb < 0 {
+					nb = 0
+				}
+				return nb, true
+			}
+		}
+	case "ite":
+		a, ok1 := ubOf(t.Args[1])
+		b, ok2 := ubOf(t.Args[2])
+		if ok1 && ok2 {
+			if a < b {
+				a = b
+			}
+			return a, true
+		}
+	}
+	return 0, false
+}
+
+// tzOf: number of known trailing zero bits
+func tzOf(t *Term) int {
+	if t.IsConst() {
+		if t.Val.Sign() == 0 {
+			return 1 << 20
+		}
+		return int(t.Val.TrailingZeroBits())
+	}
+	switch t.Op {
+	case "*":
+		if len(t.Args) == 2 && t.Args[1].IsConst() && t.Args[1].Val.Sign() > 0 {
+			return tzOf(t.Args[0]) + int(t.Args[1].Val.TrailingZeroBits())
+		}
+	case "+":
+		m := 1 << 20
+		for _, a := range t.Args {
+			if z := tzOf(a); z < m {
+				m = z
+			}
+		}
+		return m
+	case "-":
+		if len(t.Args) == 2 {
+			a, b := tzOf(t.Args[0]), tzOf(t.Args[1])
+			if b < a {
+				a = b
+			}
+			return a
+		}
+	}
+	return 0
 }
 
 func sgn(n NumT) string {
@@ -323,17 +462,25 @@ func (a *Arith) Conv(from, to NumT, x *Term) *Term {
 			return ZExt(to.Bits-from.Bits, x)
 		}
 	}
-	// int mode: value-preserving conversion required (side condition), except that an
-	// explicit wrap of a constant-width is expressed with mod when the source is unsigned
+	// int mode: exact two's-complement wrap, expressed with mod by a constant
 	if to.Bits >= from.Bits && (to.Signed == from.Signed || (to.Signed && to.Bits > from.Bits)) {
 		return x
 	}
-	if !to.Signed && !from.Signed {
-		// narrowing unsigned: exact mod
-		return IntOp("mod", x, Const(IntSort, new(big.Int).Lsh(big.NewInt(1), uint(to.Bits))))
+	if ub, ok := ubOf(x); ok {
+		lim := to.Bits
+		if to.Signed {
+			lim--
+		}
+		if ub <= lim {
+			return x
+		}
 	}
-	a.side(a.InRange(to, x), fmt.Sprintf("conversion to %d-bit %s preserves the value", to.Bits, sgn(to)))
-	return x
+	m := Const(IntSort, bigPow2(uint(to.Bits)))
+	if !to.Signed {
+		return tagBits(IntOp("mod", x, m), to.Bits)
+	}
+	h := Const(IntSort, bigPow2(uint(to.Bits-1)))
+	return IntOp("-", IntOp("mod", IntOp("+", x, h), m), h)
 }
 
 // shift amount normalisation (bv mode): Go allows any unsigned width on the right
